@@ -234,10 +234,26 @@ func (l *loader) loadNodeInterface(pNodeInt *acmelibv1.NodeInterface) (*NodeInte
 		return nil, err
 	}
 
+	// an interface is attached to one bus only
+	if nodeInt.hasParentBus() {
+		return nil, &EntityIDError{
+			EntityID: EntityID(pNodeInt.GetNodeEntityId()),
+			Err:      ErrIsDuplicated,
+		}
+	}
+
 	for _, pMsg := range pNodeInt.GetMessages() {
 		msg, err := l.loadMessage(pMsg)
 		if err != nil {
 			return nil, err
+		}
+
+		// two messages cannot share the entity id
+		if nodeInt.sentMessages.hasKey(msg.entityID) {
+			return nil, &EntityIDError{
+				EntityID: msg.entityID,
+				Err:      ErrIsDuplicated,
+			}
 		}
 
 		if err := nodeInt.AddSentMessage(msg); err != nil {
@@ -427,9 +443,7 @@ func (l *loader) loadSignal(pSig *acmelibv1.Signal) (Signal, error) {
 		sig.SetSendType(SignalSendTypeIfActiveWithRepetition)
 	}
 
-	if pSig.StartValue != 0 {
-		sig.SetStartValue(pSig.StartValue)
-	}
+	sig.SetStartValue(pSig.StartValue)
 
 	for _, pAttAss := range pSig.AttributeAssignments {
 		if err := l.loadAttributeAssignment(sig, pAttAss); err != nil {
@@ -494,6 +508,9 @@ func (l *loader) loadMultiplexerSignal(baseSig *signal, pMuxSig *acmelibv1.Multi
 		muxedSignals[pMuxedSig.GetEntity().GetEntityId()] = sig
 	}
 
+	// the position of a signal is the same in all the groups it is part of
+	sigPositions := make(map[string]int)
+
 	fixedSignals := make(map[string]struct{})
 	for _, fixEntID := range pMuxSig.GetFixedSignalEntityIds() {
 		fixedSignals[fixEntID] = struct{}{}
@@ -512,6 +529,14 @@ func (l *loader) loadMultiplexerSignal(baseSig *signal, pMuxSig *acmelibv1.Multi
 				}
 			}
 
+			if prevPos, ok := sigPositions[sigEntID]; ok && prevPos != startPos {
+				return nil, &StartBitError{
+					StartBit: startPos,
+					Err:      ErrOutOfBounds,
+				}
+			}
+			sigPositions[sigEntID] = startPos
+
 			if _, fixed := fixedSignals[sigEntID]; fixed {
 				if _, inserted := insFixedSignals[sigEntID]; !inserted {
 					if err := muxSig.InsertSignal(muxedSig, startPos); err != nil {
@@ -525,6 +550,16 @@ func (l *loader) loadMultiplexerSignal(baseSig *signal, pMuxSig *acmelibv1.Multi
 
 			if err := muxSig.InsertSignal(muxedSig, startPos, groupID); err != nil {
 				return nil, err
+			}
+		}
+	}
+
+	// every signal of the multiplexer must be placed in at least one group
+	for sigEntID := range muxedSignals {
+		if _, ok := sigPositions[sigEntID]; !ok {
+			return nil, &EntityIDError{
+				EntityID: EntityID(sigEntID),
+				Err:      ErrNotFound,
 			}
 		}
 	}
